@@ -24,7 +24,7 @@ TECHNIQUE = ("property-based testing (Hypothesis) over datagram SEQUENCES: SNMPv
              "UDP sockets on 127.0.0.1 / ::1); oracle = exactly the valid matching ones are delivered, once, in order, with "
              "content and origin intact")
 RULE = ("case = listener community x sequence of 1..12 datagrams from {valid v2c trap (sysUpTime, snmpTrapOID, 0..8 payload bindings of "
-        "every type), the same bytes again from another sender, foreign community (incl. ones differing only by non-ASCII octets), SNMPv1 / SNMPv3 datagram, truncation, single bit flip, random bytes} x source addresses "
+        "every type), the same bytes again from another or the same sender, consecutive notifications of one origin (same address, port and request-id), foreign community (incl. ones differing only by non-ASCII octets), SNMPv1 / SNMPv3 datagram, truncation, single bit flip, random bytes} x source addresses "
         "(IPv4 2-tuples, IPv6 4-tuples); non-trivial = a valid datagram arrives after an invalid one, or a valid datagram has >= 3 "
         "payload bindings; distinct = SHA-1 of canonical JSON case")
 ASSUMPTIONS = [
@@ -128,9 +128,12 @@ def classify(data, community):
 VIRT_PORT0 = 20000
 
 
-def virt_addr(i, item):
-    """the source address of the i-th injected datagram in the virtual tier: the item's host, a port of its own"""
+def virt_addr(i, item, same=False):
+    """the source address of the i-th injected datagram in the virtual tier: the item's host, a port of its own -- or, in a
+    case marked same_origin, the item's own address and port (one agent sending again and again from one socket)"""
     a = addr_of(item)
+    if same:
+        return a
     return (a[0], VIRT_PORT0 + i) + tuple(a[2:])
 
 
@@ -147,13 +150,14 @@ def inject_virtual(case):
     cur = {"i": None}
 
     n_items = len(case["items"])
+    same = bool(case.get("same_origin"))
 
     async def callback(trap):
         # attributed by where the datagram came from (every injected datagram has its own source port), so that a delivery
         # which takes its time -- a listener may decode in a worker task or thread -- is not taken for the next datagram's
         i = cur["i"]
         try:
-            k = trap.source.port - VIRT_PORT0
+            k = -1 if same else trap.source.port - VIRT_PORT0
             if 0 <= k < n_items and trap.source.address == virt_addr(k, case["items"][k])[0]:
                 i = k
         except Exception:  # noqa
@@ -189,7 +193,7 @@ def inject_virtual(case):
             cur["i"] = i
             try:
                 with vsandbox.cpu_budget(8):
-                    proto.datagram_received(data, virt_addr(i, item))
+                    proto.datagram_received(data, virt_addr(i, item, same))
             except vsandbox.HangDetected:
                 errors.append("HANG on datagram %d" % i)
             except Exception as e:  # noqa  (asyncio would log it and go on)
@@ -314,13 +318,19 @@ def run_case(case) -> Result:
     if any(e.startswith("HANG") for e in errors):
         return Result(None, nontrivial, cls + ["cpu_budget_hit"], inconclusive=True)
     # align deliveries with the sequence
-    if loopback:
+    same = bool(case.get("same_origin")) and not loopback
+    if same:
+        classes.add("same_origin_sequence")
+        cls = sorted(classes)
+    if loopback or same:
+        # datagrams of one origin cannot be told apart by their source: compared by count and, in arrival order, by content
         must = [e for e in expect if e[0] == "deliver"]
         if any(e[0] == "either" for e in expect):
             return Result(None, False, cls + ["ambiguous_in_loopback"])
         if len(got) != len(must):
             return bad("%d notifications delivered, %d valid matching datagrams were sent" % (len(got), len(must)))
-        pairs = list(zip(must, [t for _, t in got], [src] * len(must)))
+        srcs = [src] * len(must) if loopback else [virt_addr(i, items[i], True) for i, e in enumerate(expect) if e[0] == "deliver"]
+        pairs = list(zip(must, [t for _, t in got], srcs))
     else:
         by_index = {}
         for i, trap in got:
@@ -409,11 +419,18 @@ def cases(draw):
     community = draw(st.sampled_from(COMMUNITIES))
     n = draw(st.integers(1, 12))
     items = []
+    # one agent that keeps sending from the same address and port, half of the time with a constant request-id (many
+    # agents always send 0): consecutive notifications of one origin are separate notifications, each delivered once
+    main_addr, main_rid = draw(ADDR), draw(st.sampled_from([0, 0, 1, 12345, 2 ** 31 - 1]))
     for i in range(n):
         k = draw(st.sampled_from(["valid", "valid", "valid", "foreign", "version", "truncate", "flip", "flip", "random", "short"]))
         if i == 0 and draw(st.integers(0, 5)) == 0:
             k = "version"
         base = draw(trap_item(community))
+        if draw(st.integers(0, 2)) != 0:
+            base["addr"] = main_addr
+            if draw(st.booleans()):
+                base["rid"] = main_rid
         if k == "valid":
             items.append(base)
         elif k == "foreign":
@@ -433,8 +450,12 @@ def cases(draw):
             items.append(dict(kind="random", hex=draw(st.binary(min_size=0, max_size=120)).hex(), addr=base["addr"]))
         if items[-1]["kind"] == "valid" and draw(st.integers(0, 3)) == 0:
             # the very same bytes once more, from another sender
-            items.append(dict(kind="repeat", of=len(items) - 1, addr=draw(ADDR)))
-    return dict(community=community, items=items[:14])
+            items.append(dict(kind="repeat", of=len(items) - 1, addr=draw(st.one_of(ADDR, st.just(items[-1]["addr"])))))
+    case = dict(community=community, items=items[:14])
+    if draw(st.integers(0, 2)) == 0:
+        # every datagram keeps the source address AND port of its item (the default gives each datagram a port of its own)
+        case["same_origin"] = True
+    return case
 
 
 @st.composite
